@@ -56,7 +56,7 @@ func cmdReplay(args []string) int {
 		fmt.Fprintln(os.Stderr, "vsim: BUILD TROUBLE:", err)
 		return 2
 	}
-	j := scen.Job{Scenario: rf.Scenario, Seed: rf.Seed, Params: rf.Params, Tape: rf.Tape, PadZero: rf.Tape != nil, Trace: f.num("trace", 200), Sample: true}
+	j := scen.Job{Scenario: rf.Scenario, Seed: rf.Seed, Params: rf.Params, Tape: rf.Tape, PadZero: rf.Tape != nil, Trace: f.num("trace", 200), Sample: true, Property: rf.Property}
 	r := execJob(bi.Binary, j, p.RunWall, 1)
 	defer cleanupBuild(bi)
 	if r.Out == nil {
@@ -211,7 +211,7 @@ func cmdSelftest(args []string) int {
 		var tasks []task
 		for i := 0; i < nseeds; i++ {
 			v := pickVariant(p, i)
-			j := scen.Job{Scenario: v.Scenario, Seed: base*7919 + uint64(i), Params: v.Params}
+			j := scen.Job{Scenario: v.Scenario, Seed: base*7919 + uint64(i), Params: v.Params, Property: p.ID}
 			for _, g := range []int{1, 1, 4, 16} {
 				rep := 0
 				for _, t := range tasks {
